@@ -39,7 +39,6 @@ import (
 	"fmt"
 	"go/types"
 	"io"
-	"reflect"
 	"strings"
 	"unsafe"
 
@@ -230,8 +229,8 @@ func equals(t types.Type, x, y value) bool {
 		return x == y.(string)
 	case *value:
 		return x == y.(*value)
-	case chan value:
-		return x == y.(chan value)
+	case *ichan:
+		return x == y.(*ichan)
 	case structure:
 		return x.eq(t, y)
 	case array:
@@ -291,8 +290,8 @@ func hash(outer, t types.Type, x value) int {
 		return hashString(x)
 	case *value:
 		return int(uintptr(unsafe.Pointer(x)))
-	case chan value:
-		return int(uintptr(reflect.ValueOf(x).Pointer()))
+	case *ichan:
+		return chID(x)
 	case structure:
 		return x.hash(t)
 	case array:
@@ -382,8 +381,8 @@ func writeValue(buf *bytes.Buffer, v value) {
 	case sym:
 		fmt.Fprintf(buf, "<sym t%d>", v.e.ID)
 
-	case chan value:
-		fmt.Fprintf(buf, "%v", v) // (an address)
+	case *ichan:
+		fmt.Fprintf(buf, "chan#%d", chID(v))
 
 	case *value:
 		if v == nil {
